@@ -157,6 +157,70 @@ func init() {
 						c.Violation("layout-renderable", fmt.Sprintf("the layout %q rendered directly: %q", lc.layout, got.Out), map[string]any{"files": describeFiles(files)})
 					}
 				}},
+				// layouts with 4..65 reserves, several layouts in one tree (the page names one of them), pages that insert every
+				// reserve, every other one, none, in source order or reversed, in either form
+				{Name: "many-reserves", Exhaustive: true, N: 9 * 5, Run: func(c *core.Ctx, i int) {
+					n := []int{4, 8, 9, 16, 17, 32, 33, 64, 65}[i%9]
+					variant := i / 9
+					files := map[string]string{}
+					nLayouts := 1 + variant
+					for l := 0; l < nLayouts; l++ {
+						var lay strings.Builder
+						fmt.Fprintf(&lay, "layout %d:", l)
+						for k := 0; k < n; k++ {
+							fmt.Fprintf(&lay, "<r%d>@reserve(\"r%d\")</r%d>", k, k, k)
+						}
+						files[fmt.Sprintf("layouts/l%d.tw", l)] = lay.String() + "{{ who }}"
+					}
+					use := nLayouts - 1
+					if variant == 3 {
+						use = 1
+					}
+					var page, want strings.Builder
+					fmt.Fprintf(&page, "@use(\"~l%d\")page text", use)
+					fmt.Fprintf(&want, "layout %d:", use)
+					order := make([]int, n)
+					for k := range order {
+						order[k] = k
+						if variant%2 == 1 {
+							order[k] = n - 1 - k
+						}
+					}
+					inserted := map[int]string{}
+					for _, k := range order {
+						switch {
+						case variant == 2 && k%2 == 1, variant == 4:
+							continue // not inserted
+						case k%3 == 0:
+							fmt.Fprintf(&page, "@insert(\"r%d\", \"e%d-\" + who)", k, k)
+							inserted[k] = fmt.Sprintf("e%d-w", k)
+						case k%3 == 1:
+							fmt.Fprintf(&page, "@insert(\"r%d\")b%d {{ who }}@end", k, k)
+							inserted[k] = fmt.Sprintf("b%d w", k)
+						default:
+							fmt.Fprintf(&page, "\n@insert(\"r%d\")@end between", k)
+							inserted[k] = ""
+						}
+					}
+					for k := 0; k < n; k++ {
+						fmt.Fprintf(&want, "<r%d>%s</r%d>", k, inserted[k], k)
+					}
+					want.WriteString("w")
+					files["page.tw"] = page.String()
+					tpl, err := loadTree(c, "c06many", files, ".tw")
+					c.Nontrivial(fmt.Sprint(n, variant))
+					if err != nil {
+						c.Violation("load-failed", "a valid layout tree was rejected: "+err.Error(), map[string]any{"files": describeFiles(files)})
+						return
+					}
+					if tpl == nil {
+						return
+					}
+					got, _ := renderPage(c, tpl, "page", map[string]any{"who": "w"})
+					if !got.Panicked && (got.Err != nil || got.Out != want.String()) {
+						c.Violation("many-reserves", fmt.Sprintf("the page rendered %s, want %q", clipS(got.Describe(), 600), clipS(want.String(), 600)), map[string]any{"files": describeFiles(files)})
+					}
+				}},
 				{Name: "fault-trees", N: nf, Run: func(c *core.Ctx, i int) {
 					lc := genLayoutTree(c, i)
 					r := c.Rng
